@@ -1,5 +1,6 @@
 """property -> units / harness groups, claim texts, not-applicable list"""
 
+KANI_COMPLETE = 'Kani/CBMC function-level harnesses on the real crate, loop-free or unwound to a type-level constant, full-domain symbolic inputs'
 VERUS_TECH = 'contract-based deductive verification (Verus/Z3) of functions extracted mechanically from /repo'
 
 PROPERTIES = {
@@ -21,13 +22,21 @@ PROPERTIES = {
         note='Trusted: Verus+Z3; extraction rewrites; Vec<u8> sink model (write_all appends, never fails); to_be_bytes stubs; obeys_key_model::<Label>(); ordered LabelRange precondition.',
         out=['write_code retry loop and instruction match (closure)', 'duke/src/simple_class_writer/pool.rs PoolWrite::put (HashMap::entry)', 'attribute emitters']),
     'C04': dict(
-        level='proof', verus=['adiff'], kani=[],
+        level='proof', verus=['adiff'], kani=['names'],
         technique=VERUS_TECH,
         claim='Unbounded proof, for the functions under contract only: apply_diff_option equals the spec table of the property (None keeps, Add only onto absent, Remove/Edit only when the stated old value matches, every other combination refused), '
               'Action::{from_tuple,to_tuple,flip,is_diff} equal their algebraic specs, and the lemmas from_tuple/to_tuple isomorphism, flip involution and apply(diff(a,b),a)=b hold for all values of all types. '
               'Partial: the map level (apply_diff_map / zip over IndexMap) and the text form are not under contract.',
         note='Trusted: Verus+Z3; extraction rewrites (Debug bound removed, error text dropped); T::obeys_eq_spec() (PartialEq::eq agrees with its spec) and cloned(b,x) as the meaning of Clone.',
         out=['quill/src/action/apply_diff.rs apply_diff_map and callers (IndexMap)', 'quill/src/action/diff_mappings.rs', 'quill/src/tiny_v2_diff.rs']),
+    'C08': dict(
+        level='proof', verus=[], kani=['names'],
+        technique=KANI_COMPLETE,
+        claim='Complete (not bounded) Kani proofs on the real quill crate for N in {2,3,4} namespaces and all u8 name values: Names::reorder(table)[i] == self[table[i]] for every table; '
+              'reorder by any permutation followed by its inverse is the identity; the identity permutation changes nothing; first_name fails exactly when the first namespace has no name. '
+              'Partial: building the table from namespace strings, descriptor re-keying and IndexMap re-insertion are not under contract.',
+        note='Trusted: Kani 0.68/CBMC; anyhow shim; instantiation T = u8, N in {2,3,4} (loops run over the const generic N with unwinding assertions); other N not covered.',
+        out=['quill/src/action/reorder.rs (table construction, remapper, map_with_key_from_result_iter over IndexMap)']),
     'C16': dict(
         level='proof', verus=['rlabels', 'cwrite', 'wjump', 'rskip', 'rbranch', 'adiff'], kani=[],
         technique=VERUS_TECH + ': implicit safety obligations (overflow, index, unwrap, unreachable, termination)',
@@ -54,7 +63,6 @@ NOT_APPLICABLE = {
     'C15': 'code lives in the binary crate (tokio/reqwest/zip dependency closure not compilable by Kani), predicates over IndexMap/IndexSet graphs',
     # not yet built in this session (moved to claimed checks as they are built):
     'C06': 'not yet built (planned: bounded Kani map_desc)',
-    'C08': 'not yet built (planned: Kani-complete Names::reorder)',
     'C09': 'not yet built (planned: Kani-complete merge_names)',
     'C11': 'not yet built (planned: bounded Kani inner class split/join)',
     'C13': 'not yet built (planned: bounded Kani merge_preserve_order)',
